@@ -198,14 +198,15 @@ CentralRx(pout) ==
 (* bounded instance for model checking: PDU k has length k, LLID 2 (start) or the reserved LLID 0 *)
 MkPdu(k)  == [id |-> k, len |-> k, llid |-> 2]
 MkPdu0(k) == [id |-> k, len |-> k, llid |-> 0]
-CPdus     == {Empty, Empty0} \cup {MkPdu(k) : k \in 1..MaxC} \cup {MkPdu0(k) : k \in 1..MaxC}
+\* (an operator with a parameter: TLC evaluates constant definitions eagerly, MaxC is huge in trace validation)
+CPdus(n)  == {Empty, Empty0} \cup {MkPdu(k) : k \in 1..n} \cup {MkPdu0(k) : k \in 1..n}
 
 Next ==
     \/ /\ Len(committed) < MaxP
        /\ Commit(MkPdu(Len(committed) + 1), Len(committed) - txCtr < TxCap)
-    \/ \E p \in CPdus, vis \in BOOLEAN : Read(p, vis)
+    \/ \E p \in CPdus(MaxC), vis \in BOOLEAN : Read(p, vis)
     \/ /\ air = <<>>
-       /\ \E p \in CPdus :
+       /\ \E p \in CPdus(MaxC) :
             LET c == [sn |-> cSn, nesn |-> cNesn, pdu |-> p] IN
             /\ CentralSends(c)
             /\ \E out \in Outcomes :
